@@ -111,10 +111,14 @@ func vh_C19_L5_ack_policy() {
 		a.ackState = ackStateIdle // the SACK for it has gone out
 		a.ackTimer.stop()
 	}
-	pendingDelayed := vPick(2) == 1
+	pending := vPick(3) // no ack pending, a delayed one, or one that is already due (the writer has not run yet)
+	pendingDelayed := pending == 1
 	if pendingDelayed {
 		a.ackState = ackStateDelay
 		a.ackTimer.start()
+	}
+	if pending == 2 {
+		a.ackState = ackStateImmediate
 	}
 	t := nondetU32()
 	vassume(t-cum != 1<<31)
@@ -128,6 +132,9 @@ func vh_C19_L5_ack_policy() {
 	if c.immediateSack || gapAfter || (vInWindow(a, cum, t) && !inOrder && !dup) || pendingDelayed {
 		vassert(a.ackState == ackStateImmediate, "gap, I-bit or an already pending delayed ack: acknowledge at once")
 	}
+	if pending == 2 {
+		vassert(a.ackState == ackStateImmediate, "an acknowledgement that is already due is never put off again by further data")
+	}
 	if dup {
 		vassert(a.ackState == ackStateImmediate, "duplicate TSN is acknowledged at once")
 		vassert(len(a.payloadQueue.dupTSN) >= 1, "duplicate TSN is recorded for the next SACK")
@@ -136,7 +143,7 @@ func vh_C19_L5_ack_policy() {
 		vassert(vTimerArmedNative(a.ackTimer.timer), "a delayed ack always has the ack timer running")
 		vassert(a.ackTimer.isRunning(), "ack timer state is started")
 	}
-	if inOrder && !c.immediateSack && !gapBefore && !pendingDelayed {
+	if inOrder && !c.immediateSack && !gapBefore && pending == 0 {
 		vassert(a.ackState == ackStateDelay, "first in-order chunk uses the delayed ack")
 	}
 	// the delayed ack never waits longer than 200 ms: expiry turns it into an immediate ack
